@@ -181,6 +181,15 @@ def run(ctx):
         tag = B.peel(r.a[1][1]) if r.op == "call" else None
         ok = ok and tag is not None and tag.op == "assoc" and tag.a[0] == "BlsElGamal::ENC_DST"
         ctx.ob("E5.generator", mg.key, ok, "H = PublicKeyHasher::hash_to_point(to_bytes(G), ENC_DST): %s" % show(r, 4), where=where(mg))
+    # threshold decryption: the decryption key is recombined from the share *set* (any order, every share forwarded)
+    fk = "ElGamalDecryptionKey<C>::from_shares"
+    f = ctx.need_fn("E6.combine", fk)
+    if f is not None:
+        ev = evaluate(f)
+        sites = [s_ for s_ in ev.sites.values() if s_.callee[0].endswith("core_combine_public_key_shares")]
+        x, steps = F.image_source(P, f, ev, sites[0].args[0]) if sites else (None, "no combine call")
+        ctx.ob("E6.combine", fk, x is not None and x.op == "param" and x.a[1] == "shares", "core_combine_public_key_shares receives a 1:1 image of the whole `shares` list (%s)" % (steps,), where=where(f))
+        F.check_order_insensitive(ctx, "E4.set-order", P, (fk, "BlsSignatureCore::core_combine_public_key_shares"))
     # field-wise homomorphism
     adds = [f for f in P.fns.values() if f.impl_trait in ("Add", "AddAssign") and "ElGamalCiphertext" in (f.impl_self or "") and f.name in ("add", "add_assign")]
     ctx.floor("E6.homomorphic", "Add/AddAssign impls of ElGamalCiphertext", len(adds), 6)
@@ -210,6 +219,11 @@ def run(ctx):
                     src = strip_sites(s.args[1])
                     eff.append((show(tgt, 4), show(src, 4), _field_of(tgt), _field_of(src)))
             ok = len(eff) == 2 and sorted(e[2] for e in eff) == ["c1", "c2"] and all(e[2] == e[3] for e in eff)
+            if len(eff) == 1 and eff[0][2] is None and eff[0][3] is None:
+                # delegating impl: `*self += *rhs` on the whole values (the by-value AddAssign is checked on its own)
+                sites_ = [s_ for _, s_ in sorted(ev.sites.items()) if s_.callee[0] == "AddAssign::add_assign"]
+                roots = [F.projection_root(strip_sites(a)) for a in sites_[0].args]
+                ok = all(roots) and [x[0].a[1] for x in roots] == ["self", "rhs"] and all(x[1] == "" for x in roots)
             ctx.ob("E6.homomorphic", f.key, ok, "in-place updates: %s" % [(e[0], e[1]) for e in eff], where=where(f))
     ctx.assume("merlin transcript and scalar_from_bytes_wide are deterministic; soundness rests on discrete log")
 
